@@ -112,6 +112,9 @@ Proof.
   decide equality.
 Qed.
 
+Lemma content_eq_dec_opt : forall a b : option content, {a = b} + {a <> b}.
+Proof. decide equality; apply content_eq_dec. Qed.
+
 Lemma fname_eq_dec : forall a b : fname, {a = b} + {a <> b}.
 Proof. decide equality; apply N.eq_dec. Qed.
 
@@ -581,7 +584,7 @@ Proof.
   induction segs as [|s r IH]; intros H; cbn; [split; reflexivity|].
   destruct (H s (or_introl eq_refl)) as [[c mt] E].
   destruct IH as [IH1 IH2]; [intros y HY; apply H; right; exact HY|].
-  unfold wal_member at 1. rewrite E, IH1. cbn. rewrite IH2. split; reflexivity.
+  unfold wal_member at 1. rewrite E, IH1. fold (seg_part d r). cbn [app map fst]. rewrite IH2. split; reflexivity.
 Qed.
 
 Lemma uniq_names_id : forall l seen,
@@ -651,7 +654,7 @@ Proof.
   rewrite EV. fold (view_files d m).
   unfold finish_full. destruct (view_files d m) as [|e r] eqn:EVF.
   - unfold view_files in EVF. destruct (snap_part d m); discriminate.
-  - rewrite <- EVF. rewrite uniq_names_id; [reflexivity|exact NDV|intros n []].
+  - rewrite <- EVF in NDV |- *. rewrite uniq_names_id; [reflexivity|exact NDV|intros n []].
 Qed.
 
 Lemma tget_view_manifest : forall d m, wf_sdir d m -> tget (view_files d m) FManifest = Some (CMan m).
@@ -734,5 +737,480 @@ Proof.
     + apply tget_view_manifest; exact WF.
     + intros s c mt E; eapply tget_view_wal; eauto.
     + intros s ES. destruct WF as (A & B & C & D & HSE). destruct (HSE s ES) as [[c mt] E].
-      rewrite E; cbn. eapply tget_view_snap; eauto. repeat split; auto.
+      rewrite E; cbn. eapply tget_view_snap; eauto. unfold wf_sdir; tauto.
+Qed.
+
+(* ------------------------------------------------------------------------------------------ *)
+(* chains: full backup followed by incrementals                                                *)
+(* ------------------------------------------------------------------------------------------ *)
+(* Premise about how the engine's directory evolves between two backups: a WAL segment that the
+   incremental does NOT select (id below the parent's recorded maximum, or equal to it with an
+   mtime older than the parent's timestamp) is unchanged since the parent's directory state.
+   (Closed segments are immutable; appending to the active one moves its mtime forward.) *)
+Definition evolves (dp : sdir) (bp : backup) (d : sdir) : Prop :=
+  forall s c mt, sget d (FWal s) = Some (c, mt) ->
+    incr_selected (b_ts bp) (b_max_wal bp) (s, (c, mt)) = false ->
+    exists mt0, sget dp (FWal s) = Some (c, mt0).
+
+(* chain_ok rch bf d m: rch (newest first) is a full backup bf followed by incrementals, each taken by
+   the modelled code from a well-formed directory that evolved from its parent's; d, m are the
+   directory and manifest of the newest one. *)
+Inductive chain_ok : list backup -> backup -> sdir -> manifest -> Prop :=
+| co_full : forall d m b id ts aux,
+    wf_sdir d m -> create_full d id ts aux = Ok b -> chain_ok [b] b d m
+| co_incr : forall rch bf dp mp bp d m b st id ts aux,
+    chain_ok (bp :: rch) bf dp mp -> wf_sdir d m -> evolves dp bp d ->
+    find_b st (b_id bp) = Some bp ->
+    create_incremental st d (b_id bp) id ts aux = Ok b ->
+    chain_ok (b :: bp :: rch) bf d m.
+
+Inductive linked : list backup -> backup -> Prop :=
+| ln_full : forall b, b_kind b = Full -> linked [b] b
+| ln_incr : forall b bp r bf, b_kind b = Incremental -> b_parent b = Some (b_id bp) ->
+    linked (bp :: r) bf -> linked (b :: bp :: r) bf.
+
+Definition covers (t : tdir) (d : sdir) : Prop :=
+  forall s c mt, sget d (FWal s) = Some (c, mt) -> tget t (FWal s) = Some c.
+
+Lemma create_full_inv : forall d m id ts aux b, wf_sdir d m -> create_full d id ts aux = Ok b ->
+  b = mkBackup id None Full ts (view_files d m) true (max_list (m_segs m)) (m_snap m) aux.
+Proof.
+  intros d m id ts aux b WF H. unfold create_full in H. rewrite (create_full_files_wf d m WF) in H.
+  inversion H; reflexivity.
+Qed.
+
+Lemma create_incr_files_wf : forall d m pts pmax files mx sf, wf_sdir d m ->
+  create_incr_files d pts pmax = Ok (files, mx, sf) ->
+  files = (FManifest, CMan m) ::
+          map (fun e => (FWal (fst e), fst (snd e))) (filter (incr_selected pts pmax) (wal_on_disk d)).
+Proof.
+  intros d m pts pmax files mx sf WF H. destruct WF as (ND & [mt EM] & HS & HL & _).
+  unfold create_incr_files in H. rewrite EM in H.
+  destruct (filter (incr_selected pts pmax) (wal_on_disk d)) as [|e r] eqn:ES; [discriminate|].
+  rewrite merge_segs_id in H.
+  - rewrite set_segs_id in H. inversion H; reflexivity.
+  - exact HS.
+  - intros s HI. apply HL. apply in_map_iff in HI; destruct HI as [[s' x] [E HI]]; cbn in E; subst s'.
+    rewrite <- ES in HI. apply filter_In in HI; destruct HI as [HI _].
+    apply wal_on_disk_In in HI. exists x. apply in_sget_nodup; auto.
+Qed.
+
+Lemma chain_linked : forall rch bf d m, chain_ok rch bf d m ->
+  linked rch bf /\ Forall (fun b => b_ok b = true) rch.
+Proof.
+  intros rch bf d m H; induction H as [d m b id ts aux WF HC | rch bf dp mp bp d m b st id ts aux HP IH WF HE HF HC].
+  - rewrite (create_full_inv _ _ _ _ _ _ WF HC). split; [constructor; reflexivity|constructor; auto].
+  - destruct IH as [IL IO]. unfold create_incremental in HC. rewrite HF in HC.
+    destruct (create_incr_files d (b_ts bp) (b_max_wal bp)) as [[[files mx] sf]|e]; [|discriminate].
+    inversion HC; subst b. split; [constructor; auto|constructor; auto].
+Qed.
+
+Lemma extract_chain_snoc : forall t l b, extract_chain t (l ++ [b]) = extract (extract_chain t l) b.
+Proof. intros; unfold extract_chain; rewrite fold_left_app; reflexivity. Qed.
+
+(* the invariant carried along a chain *)
+Lemma chain_invariant : forall rch bf d m, chain_ok rch bf d m ->
+  let t := extract_chain [] (rev rch) in
+  covers t d /\ tget t FManifest = Some (CMan m) /\
+  (forall s, tget t (FSnap s) = tget (b_files bf) (FSnap s)).
+Proof.
+  intros rch bf d m H; induction H as [d m b id ts aux WF HC | rch bf dp mp bp d m b st id ts aux HP IH WF HE HF HC].
+  - rewrite (create_full_inv _ _ _ _ _ _ WF HC). cbn [rev app]. unfold extract_chain; cbn [fold_left].
+    rewrite extract_is_put_all; cbn [b_files]. rewrite put_all_nodup by (cbn [app]; apply view_files_nodup; exact WF).
+    cbn [app]. repeat split.
+    + intros s c mt E; eapply tget_view_wal; eauto.
+    + apply tget_view_manifest; exact WF.
+  - cbn zeta in IH. destruct IH as (IC & IM & IS).
+    unfold create_incremental in HC. rewrite HF in HC.
+    destruct (create_incr_files d (b_ts bp) (b_max_wal bp)) as [[[files mx] sf]|e] eqn:EC; [|discriminate].
+    pose proof (create_incr_files_wf _ _ _ _ _ _ _ WF EC) as EF.
+    inversion HC; subst b; clear HC.
+    cbn zeta. change (rev (mkBackup id (Some (b_id bp)) Incremental ts files true mx sf aux :: bp :: rch))
+      with (rev (bp :: rch) ++ [mkBackup id (Some (b_id bp)) Incremental ts files true mx sf aux]).
+    rewrite extract_chain_snoc, extract_is_put_all; cbn [b_files].
+    set (t := extract_chain [] (rev (bp :: rch))) in *.
+    set (sel := filter (incr_selected (b_ts bp) (b_max_wal bp)) (wal_on_disk d)) in *.
+    destruct WF as (ND & [mtm EM] & HS & HL & HSN).
+    (* every member named FWal s carries the content s has in d *)
+    assert (HMem : forall s c', In (FWal s, c') files -> exists mt', sget d (FWal s) = Some (c', mt') /\
+                                  incr_selected (b_ts bp) (b_max_wal bp) (s, (c', mt')) = true).
+    { intros s c' HI. rewrite EF in HI. destruct HI as [E|HI]; [discriminate|].
+      apply in_map_iff in HI; destruct HI as [[s' [c2 mt2]] [E HI]]; cbn in E; inversion E; subst s' c2.
+      apply filter_In in HI; destruct HI as [HI HSel]. apply wal_on_disk_In in HI.
+      exists mt2; split; [apply in_sget_nodup; auto|exact HSel]. }
+    repeat split.
+    + intros s c mt E.
+      destruct (incr_selected (b_ts bp) (b_max_wal bp) (s, (c, mt))) eqn:ESel.
+      * apply put_all_written.
+        -- rewrite EF; right. apply in_map_iff; exists (s, (c, mt)); split; [reflexivity|].
+           apply filter_In; split; [|exact ESel]. apply wal_on_disk_In. apply sget_in; exact E.
+        -- intros c' HI. destruct (HMem s c' HI) as [mt' [E' _]]. rewrite E in E'; inversion E'; reflexivity.
+      * rewrite put_all_untouched.
+        -- destruct (HE s c mt E ESel) as [mt0 E0]. exact (IC s c mt0 E0).
+        -- intros c' HI. destruct (HMem s c' HI) as [mt' [E' HSel]]. rewrite E in E'; inversion E'; subst c' mt'.
+           rewrite ESel in HSel; discriminate.
+    + apply put_all_written.
+      * rewrite EF; left; reflexivity.
+      * intros c' HI. rewrite EF in HI. destruct HI as [E|HI]; [inversion E; reflexivity|].
+        apply in_map_iff in HI; destruct HI as [x [E _]]; discriminate.
+    + intros s. rewrite put_all_untouched; [apply IS|].
+      intros c' HI. rewrite EF in HI. destruct HI as [E|HI]; [discriminate|].
+      apply in_map_iff in HI; destruct HI as [x [E _]]; discriminate.
+Qed.
+
+(* build_chain finds exactly the chain when every member's metadata is present in the store *)
+Lemma find_b_In : forall st id b, find_b st id = Some b -> In b st /\ b_id b = id.
+Proof.
+  induction st as [|x r IH]; intros id b H; cbn in H; [discriminate|].
+  destruct (b_id x =? id) eqn:E.
+  - inversion H; subst; split; [left; reflexivity|apply N.eqb_eq; exact E].
+  - destruct (IH id b H); split; [right|]; auto.
+Qed.
+
+Lemma linked_last : forall rch bf, linked rch bf -> exists r0, rch = r0 ++ [bf] /\ b_kind bf = Full.
+Proof.
+  intros rch bf H; induction H as [b HK | b bp r bf HK HP HL IH].
+  - exists []; split; auto.
+  - destruct IH as [r0 [E HF]]. exists (b :: r0); split; [cbn; rewrite E; reflexivity|exact HF].
+Qed.
+
+Lemma chain_up_linked : forall st r cur bf acc fuel,
+  linked (cur :: r) bf -> b_kind cur = Incremental ->
+  (forall b, In b (cur :: r) -> find_b st (b_id b) = Some b) ->
+  (length r <= fuel)%nat ->
+  chain_up fuel st cur acc = Ok (rev r ++ acc).
+Proof.
+  intros st r; induction r as [|bp r' IH]; intros cur bf acc fuel HL HK HF HLen.
+  - inversion HL; subst. congruence.
+  - inversion HL as [|? ? ? ? HKc HPc HL']; subst.
+    destruct fuel as [|f]; [cbn in HLen; lia|]. cbn [chain_up]. rewrite HPc.
+    rewrite (HF bp (or_intror (or_introl eq_refl))).
+    unfold is_full. destruct (b_kind bp) eqn:EK; cbn [bkind_eqb].
+    + inversion HL'; subst; [reflexivity|congruence].
+    + rewrite (IH bp bf (bp :: acc) f HL' EK).
+      * cbn [rev]. rewrite <- app_assoc; reflexivity.
+      * intros b HI; apply HF; right; exact HI.
+      * cbn in HLen; lia.
+Qed.
+
+Lemma build_chain_linked : forall st rch bf tip,
+  linked rch bf -> hd_error rch = Some tip ->
+  (forall b, In b rch -> find_b st (b_id b) = Some b) ->
+  NoDup (map b_id rch) ->
+  build_chain st (b_id tip) = Ok (rev rch).
+Proof.
+  intros st rch bf tip HL HH HF ND.
+  destruct rch as [|cur r]; [discriminate|]. cbn in HH; inversion HH; subst cur.
+  unfold build_chain. rewrite (HF tip (or_introl eq_refl)).
+  unfold is_full. destruct (b_kind tip) eqn:EK; cbn [bkind_eqb].
+  - inversion HL; subst; [reflexivity|congruence].
+  - assert (HLen : (length r <= length st)%nat).
+    { assert (HN : NoDup (tip :: r)) by (eapply NoDup_map_inv; exact ND).
+      assert (HI : incl (tip :: r) st).
+      { intros b HB. apply HF in HB. apply find_b_In in HB; tauto. }
+      pose proof (NoDup_incl_length HN HI) as HLe. cbn in HLe; lia. }
+    rewrite (chain_up_linked st r tip bf [tip] (length st) HL EK HF HLen).
+    destruct (linked_last _ _ HL) as [r0 [E HFull]].
+    change (rev r ++ [tip]) with (rev (tip :: r)). rewrite E, rev_app_distr. cbn [rev app].
+    unfold is_full; rewrite HFull; reflexivity.
+Qed.
+
+(* The two recorded classes, by input:
+   (1) the newest manifest names a snapshot that the chain's full archive does not hold with the
+       content it has in the source directory (incrementals never ship snapshots);
+   (2) the metadata of a member of the chain is missing from the store (e.g. pruned away). *)
+Definition snapshot_not_in_chain (bf : backup) (d : sdir) (m : manifest) : Prop :=
+  exists s, m_snap m = Some s /\ tget (b_files bf) (FSnap s) <> option_map fst (sget d (FSnap s)).
+
+Definition ancestor_missing (st : store) (rch : list backup) : Prop :=
+  exists b, In b rch /\ find_b st (b_id b) = None.
+
+Definition KnownC12 (st : store) (rch : list backup) (bf : backup) (d : sdir) (m : manifest) : Prop :=
+  snapshot_not_in_chain bf d m \/ ancestor_missing st rch.
+
+(* the store holds the chain's metadata unaltered, or not at all *)
+Definition store_sub (st : store) (rch : list backup) : Prop :=
+  forall b, In b rch -> find_b st (b_id b) = Some b \/ find_b st (b_id b) = None.
+
+Theorem chain_restore_exact : forall st rch bf tip d m o,
+  chain_ok rch bf d m -> hd_error rch = Some tip ->
+  NoDup (map b_id rch) -> store_sub st rch -> o_dry o = false ->
+  ~ KnownC12 st rch bf d m ->
+  exists t', restore_by_id st [] (b_id tip) o = (None, t') /\
+             recovery_view t' = recovery_view (strip d) /\ restorable t' = true.
+Proof.
+  intros st rch bf tip d m o HC HH ND HSub HD HK.
+  destruct (chain_linked _ _ _ _ HC) as [HL HOk].
+  assert (HF : forall b, In b rch -> find_b st (b_id b) = Some b).
+  { intros b HI. destruct (HSub b HI) as [E|E]; [exact E|].
+    exfalso; apply HK; right; exists b; auto. }
+  exists (extract_chain [] (rev rch)). split.
+  - unfold restore_by_id. rewrite (build_chain_linked st rch bf tip HL HH HF ND).
+    unfold restore_chain.
+    assert (E : forallb b_ok (rev rch) = true).
+    { apply forallb_forall. intros b HI. apply in_rev in HI. rewrite Forall_forall in HOk; auto. }
+    rewrite E; cbn [negb clear_target]. rewrite HD; reflexivity.
+  - destruct (chain_invariant _ _ _ _ HC) as (IC & IM & IS).
+    assert (WF : wf_sdir d m) by (inversion HC; auto).
+    apply recovery_view_matches with (m := m); auto.
+    intros s ES. rewrite IS.
+    destruct (content_eq_dec_opt (tget (b_files bf) (FSnap s)) (option_map fst (sget d (FSnap s)))) as [E|NE]; [exact E|].
+    exfalso; apply HK; left; exists s; auto.
+Qed.
+
+(* ------------------------------------------------------------------------------------------ *)
+(* the boolean premises imply the Prop premises                                                *)
+(* ------------------------------------------------------------------------------------------ *)
+Lemma optN_eqb_eq : forall a b, optN_eqb a b = true -> a = b.
+Proof. intros [x|] [y|]; cbn; intro H; try discriminate; auto. apply N.eqb_eq in H; subst; reflexivity. Qed.
+
+Lemma listN_eqb_eq : forall a b, listN_eqb a b = true -> a = b.
+Proof.
+  induction a as [|x r IH]; intros [|y s]; cbn; intro H; try discriminate; auto.
+  apply andb_true_iff in H; destruct H as [H1 H2]. apply N.eqb_eq in H1; subst. f_equal; auto.
+Qed.
+
+Lemma manifest_eqb_eq : forall a b, manifest_eqb a b = true -> a = b.
+Proof.
+  intros [a1 a2 a3 a4] [b1 b2 b3 b4]; unfold manifest_eqb; cbn. intro H.
+  repeat (apply andb_true_iff in H; destruct H as [H ?]).
+  apply optN_eqb_eq in H. apply optN_eqb_eq in H2. apply listN_eqb_eq in H1. apply N.eqb_eq in H0.
+  subst; reflexivity.
+Qed.
+
+Lemma content_eqb_eq : forall a b, content_eqb a b = true -> a = b.
+Proof.
+  intros [x|x] [y|y]; cbn; intro H; try discriminate.
+  - apply manifest_eqb_eq in H; subst; reflexivity.
+  - apply N.eqb_eq in H; subst; reflexivity.
+Qed.
+
+Lemma nodup_names_ok : forall l, nodup_names l = true -> NoDup l.
+Proof.
+  induction l as [|x r IH]; cbn; intro H; [constructor|].
+  apply andb_true_iff in H; destruct H as [H1 H2]. constructor; [|auto].
+  intro HI. apply negb_true_iff in H1.
+  assert (E : existsb (fname_eqb x) r = true) by (apply existsb_exists; exists x; split; [exact HI|apply fname_eqb_refl]).
+  congruence.
+Qed.
+
+Lemma sorted_lt_ok : forall l, sorted_lt l = true -> StronglySorted N.lt l.
+Proof.
+  intros l H. apply Sorted_StronglySorted; [intros a b c; apply N.lt_trans|].
+  induction l as [|x r IH]; [constructor|].
+  cbn in H. destruct r as [|y r'].
+  - constructor; constructor.
+  - apply andb_true_iff in H; destruct H as [H1 H2]. constructor; [apply IH; exact H2|].
+    constructor. apply N.ltb_lt; exact H1.
+Qed.
+
+Lemma is_some_ex : forall {A} (o : option A), is_some o = true -> exists x, o = Some x.
+Proof. intros A [x|]; cbn; intro H; [eexists; reflexivity|discriminate]. Qed.
+
+Lemma wf_sdirb_ok : forall d m, wf_sdirb d m = true -> wf_sdir d m.
+Proof.
+  intros d m H; unfold wf_sdirb in H.
+  repeat (apply andb_true_iff in H; destruct H as [H ?]).
+  rename H into H1, H4 into H2, H3 into H3, H2 into H4, H1 into H5, H0 into H6.
+  assert (ND : NoDup (map fst d)) by (apply nodup_names_ok; exact H1).
+  repeat split.
+  - exact ND.
+  - destruct (sget d FManifest) as [[[m'|c] mt]|]; try discriminate.
+    apply manifest_eqb_eq in H2; subst; eexists; reflexivity.
+  - apply sorted_lt_ok; exact H3.
+  - intros HI. rewrite forallb_forall in H4. apply is_some_ex; apply H4; exact HI.
+  - intros [x HX]. rewrite forallb_forall in H5.
+    apply memN_In. apply (H5 (s, x)). apply wal_entries_In. apply sget_in; exact HX.
+  - intros s ES. rewrite ES in H6. apply is_some_ex; exact H6.
+Qed.
+
+Lemma evolvesb_ok : forall dp bp d, NoDup (map fst d) ->
+  evolvesb dp (b_ts bp) (b_max_wal bp) d = true -> evolves dp bp d.
+Proof.
+  intros dp bp d ND H s c mt E HSel. unfold evolvesb in H. rewrite forallb_forall in H.
+  specialize (H (s, (c, mt))). cbn [fst snd] in H.
+  rewrite HSel in H; cbn [orb] in H.
+  assert (HI : In (s, (c, mt)) (wal_entries d)) by (apply wal_entries_In, sget_in; exact E).
+  specialize (H HI). destruct (sget dp (FWal s)) as [[c0 mt0]|]; [|discriminate].
+  apply content_eqb_eq in H; subst; eexists; reflexivity.
+Qed.
+
+(* pruning a store never alters metadata: a chain member is afterwards either intact or absent *)
+Lemma find_b_filter_none : forall (q : backup -> bool) st id,
+  (forall y, In y st -> b_id y <> id) -> find_b (filter q st) id = None.
+Proof.
+  induction st as [|x r IH]; intros id H; cbn; [reflexivity|].
+  destruct (q x); cbn.
+  - assert (E : (b_id x =? id) = false) by (apply N.eqb_neq; apply H; left; reflexivity).
+    rewrite E. apply IH; intros y HY; apply H; right; exact HY.
+  - apply IH; intros y HY; apply H; right; exact HY.
+Qed.
+
+Lemma find_b_filter : forall (q : backup -> bool) st id b, NoDup (map b_id st) ->
+  find_b st id = Some b -> find_b (filter q st) id = if q b then Some b else None.
+Proof.
+  induction st as [|x r IH]; intros id b ND H; cbn in *; [discriminate|].
+  inversion ND as [|? ? NI ND']; subst.
+  destruct (b_id x =? id) eqn:E.
+  - inversion H; subst x. apply N.eqb_eq in E.
+    destruct (q b); cbn.
+    + rewrite E, N.eqb_refl; reflexivity.
+    + apply find_b_filter_none. intros y HY HE. apply NI. apply in_map_iff; exists y; split; congruence.
+  - destruct (q x); cbn; [rewrite E|]; apply IH; auto.
+Qed.
+
+Lemma prune_store_sub : forall now p st rch, NoDup (map b_id st) ->
+  (forall b, In b rch -> find_b st (b_id b) = Some b) -> store_sub (prune_store now p st) rch.
+Proof.
+  intros now p st rch ND HF b HI. unfold prune_store.
+  rewrite (find_b_filter _ st (b_id b) b ND (HF b HI)).
+  destruct (negb _); auto.
+Qed.
+
+(* After ANY prune of a store holding a chain, restoring a retained member of the chain is exact
+   unless one of the two recorded classes applies (prune deleted an ancestor / snapshot not shipped). *)
+Corollary chain_restore_exact_after_prune : forall now p st rch bf tip d m o,
+  chain_ok rch bf d m -> hd_error rch = Some tip -> NoDup (map b_id rch) -> NoDup (map b_id st) ->
+  (forall b, In b rch -> find_b st (b_id b) = Some b) -> o_dry o = false ->
+  ~ KnownC12 (prune_store now p st) rch bf d m ->
+  exists t', restore_by_id (prune_store now p st) [] (b_id tip) o = (None, t') /\
+             recovery_view t' = recovery_view (strip d) /\ restorable t' = true.
+Proof.
+  intros; eapply chain_restore_exact; eauto. apply prune_store_sub; auto.
+Qed.
+
+(* ------------------------------------------------------------------------------------------ *)
+(* witnesses                                                                                   *)
+(* ------------------------------------------------------------------------------------------ *)
+Definition opts_plain := mkOpts false false false.
+Definition default_policy := mkPolicy 24 7 4 12 0.
+
+(* directory when the full backup is taken: no snapshot yet, one segment *)
+Definition w_d0 : sdir :=
+  [(FManifest, (CMan (mkMan None None [10] 1), 50)); (FWal 10, (CBlob 100, 50))].
+(* later: more appends to the same segment, then a snapshot (manifest now names snapshot 70) *)
+Definition w_m1 := mkMan (Some 70) (Some 3) [10] 1.
+Definition w_d1 : sdir :=
+  [(FManifest, (CMan w_m1, 70)); (FSnap 70, (CBlob 200, 70)); (FWal 10, (CBlob 101, 65))].
+
+Definition w_b1 := mkBackup 1 None Full 60 [(FManifest, CMan (mkMan None None [10] 1)); (FWal 10, CBlob 100)] true (Some 10) None 0.
+Definition w_b2 := mkBackup 2 (Some 1) Incremental 80 [(FManifest, CMan w_m1); (FWal 10, CBlob 101)] true (Some 10) None 0.
+
+Lemma w_chain_ok : chain_ok [w_b2; w_b1] w_b1 w_d1 w_m1.
+Proof.
+  eapply (co_incr [] w_b1 w_d0 (mkMan None None [10] 1) w_b1 w_d1 w_m1 w_b2 [w_b1] 2 80 0).
+  - eapply (co_full w_d0 _ w_b1 1 60 0); [apply wf_sdirb_ok; vm_compute; reflexivity|vm_compute; reflexivity].
+  - apply wf_sdirb_ok; vm_compute; reflexivity.
+  - apply evolvesb_ok; [apply nodup_names_ok; vm_compute; reflexivity|vm_compute; reflexivity].
+  - vm_compute; reflexivity.
+  - vm_compute; reflexivity.
+Qed.
+
+(* (8b) An incremental taken after a snapshot ships a manifest naming a snapshot that is in no archive
+   of its chain: every archive verifies, the restore succeeds, and the restored directory is not
+   recoverable (the manifest's snapshot is absent), let alone equal to the source. *)
+Theorem incremental_after_snapshot_refuted :
+  exists st rch bf tip d m o,
+    chain_ok rch bf d m /\ hd_error rch = Some tip /\ NoDup (map b_id rch) /\ store_sub st rch /\
+    o_dry o = false /\ snapshot_not_in_chain bf d m /\ ~ ancestor_missing st rch /\
+    exists t', restore_by_id st [] (b_id tip) o = (None, t') /\
+               restorable t' = false /\ recovery_view t' <> recovery_view (strip d).
+Proof.
+  exists [w_b2; w_b1], [w_b2; w_b1], w_b1, w_b2, w_d1, w_m1, opts_plain.
+  split; [exact w_chain_ok|]. split; [reflexivity|].
+  split; [vm_compute; repeat constructor; cbn; intuition discriminate|].
+  split; [intros b [E|[E|[]]]; subst; left; vm_compute; reflexivity|].
+  split; [reflexivity|].
+  split; [exists 70; split; [reflexivity|vm_compute; discriminate]|].
+  split; [intros [b [[E|[E|[]]] HN]]; subst; vm_compute in HN; discriminate|].
+  eexists; split; [vm_compute; reflexivity|]. split; [vm_compute; reflexivity|vm_compute; discriminate].
+Qed.
+
+(* (8a) prune with the default policy: full backup and its incremental fall into one hourly bucket,
+   the newest (the incremental) is kept and its parent deleted; restoring the kept backup fails. *)
+Theorem prune_parent_refuted :
+  exists now p st rch bf tip d m o,
+    chain_ok rch bf d m /\ hd_error rch = Some tip /\ NoDup (map b_id st) /\
+    (forall b, In b rch -> find_b st (b_id b) = Some b) /\
+    In tip (prune_store now p st) /\
+    (exists pid, b_parent tip = Some pid /\ find_b (prune_store now p st) pid = None) /\
+    ancestor_missing (prune_store now p st) rch /\
+    restore_by_id (prune_store now p st) [] (b_id tip) o = (Some EParentNotFound, []).
+Proof.
+  exists 1000, default_policy, [w_b2; w_b1], [w_b2; w_b1], w_b1, w_b2, w_d1, w_m1, opts_plain.
+  split; [exact w_chain_ok|]. split; [reflexivity|].
+  split; [vm_compute; repeat constructor; cbn; intuition discriminate|].
+  split; [intros b [E|[E|[]]]; subst; vm_compute; reflexivity|].
+  split; [vm_compute; left; reflexivity|].
+  split; [exists 1; split; vm_compute; reflexivity|].
+  split; [exists w_b1; split; [right; left; reflexivity|vm_compute; reflexivity]|].
+  vm_compute; reflexivity.
+Qed.
+
+(* Non-vacuity: a three-member chain (full, incremental after appends, incremental after a rotation
+   and further appends; no snapshot change) satisfies every premise of chain_restore_exact, lies outside
+   KnownC12, and restores to a recoverable directory with the source's view. *)
+Definition n_m0 := mkMan (Some 5) (Some 2) [10] 1.
+Definition n_d0 : sdir :=
+  [(FManifest, (CMan n_m0, 40)); (FSnap 5, (CBlob 300, 30)); (FWal 10, (CBlob 100, 50))].
+Definition n_d1 : sdir :=
+  [(FManifest, (CMan n_m0, 40)); (FSnap 5, (CBlob 300, 30)); (FWal 10, (CBlob 101, 65))].
+Definition n_m2 := mkMan (Some 5) (Some 2) [10; 20] 2.
+Definition n_d2 : sdir :=
+  [(FManifest, (CMan n_m2, 90)); (FSnap 5, (CBlob 300, 30)); (FWal 10, (CBlob 102, 85)); (FWal 20, (CBlob 400, 95))].
+Definition n_b1 := mkBackup 1 None Full 60
+  [(FSnap 5, CBlob 300); (FManifest, CMan n_m0); (FWal 10, CBlob 100)] true (Some 10) (Some 5) 0.
+Definition n_b2 := mkBackup 2 (Some 1) Incremental 80 [(FManifest, CMan n_m0); (FWal 10, CBlob 101)] true (Some 10) None 0.
+Definition n_b3 := mkBackup 3 (Some 2) Incremental 100
+  [(FManifest, CMan n_m2); (FWal 10, CBlob 102); (FWal 20, CBlob 400)] true (Some 20) None 0.
+
+Lemma n_chain_ok : chain_ok [n_b3; n_b2; n_b1] n_b1 n_d2 n_m2.
+Proof.
+  eapply (co_incr [n_b1] n_b1 n_d1 n_m0 n_b2 n_d2 n_m2 n_b3 [n_b1; n_b2] 3 100 0).
+  - eapply (co_incr [] n_b1 n_d0 n_m0 n_b1 n_d1 n_m0 n_b2 [n_b1] 2 80 0).
+    + eapply (co_full n_d0 _ n_b1 1 60 0); [apply wf_sdirb_ok; vm_compute; reflexivity|vm_compute; reflexivity].
+    + apply wf_sdirb_ok; vm_compute; reflexivity.
+    + apply evolvesb_ok; [apply nodup_names_ok; vm_compute; reflexivity|vm_compute; reflexivity].
+    + vm_compute; reflexivity.
+    + vm_compute; reflexivity.
+  - apply wf_sdirb_ok; vm_compute; reflexivity.
+  - apply evolvesb_ok; [apply nodup_names_ok; vm_compute; reflexivity|vm_compute; reflexivity].
+  - vm_compute; reflexivity.
+  - vm_compute; reflexivity.
+Qed.
+
+Theorem chain_nonvacuous :
+  let st := [n_b1; n_b2; n_b3] in let rch := [n_b3; n_b2; n_b1] in
+  chain_ok rch n_b1 n_d2 n_m2 /\ NoDup (map b_id rch) /\ store_sub st rch /\
+  ~ KnownC12 st rch n_b1 n_d2 n_m2 /\
+  restore_by_id st [] 3 opts_plain =
+    (None, [(FSnap 5, CBlob 300); (FManifest, CMan n_m2); (FWal 10, CBlob 102); (FWal 20, CBlob 400)]) /\
+  recovery_view (snd (restore_by_id st [] 3 opts_plain)) = recovery_view (strip n_d2) /\
+  recovery_view (strip n_d2) = Some (n_m2, Some (CBlob 300), [CBlob 102; CBlob 400]).
+Proof.
+  cbn zeta. split; [exact n_chain_ok|].
+  split; [vm_compute; repeat constructor; cbn; intuition discriminate|].
+  split; [intros b [E|[E|[E|[]]]]; subst; left; vm_compute; reflexivity|].
+  split.
+  - intros [[s [ES HN]]|[b [[E|[E|[E|[]]]] HN]]].
+    + vm_compute in ES; inversion ES; subst s. apply HN; vm_compute; reflexivity.
+    + subst; vm_compute in HN; discriminate.
+    + subst; vm_compute in HN; discriminate.
+    + subst; vm_compute in HN; discriminate.
+  - split; [vm_compute; reflexivity|]. split; vm_compute; reflexivity.
+Qed.
+
+(* the property "pruning never removes a backup that a retained backup depends on", and its failure *)
+Definition prune_keeps_parents_stmt : Prop :=
+  forall now p st b pid, NoDup (map b_id st) -> In b (prune_store now p st) ->
+    b_parent b = Some pid -> find_b st pid <> None -> find_b (prune_store now p st) pid <> None.
+
+Theorem prune_keeps_parents_refuted : ~ prune_keeps_parents_stmt.
+Proof.
+  intro H. apply (H 1000 default_policy [w_b2; w_b1] w_b2 1).
+  - vm_compute; repeat constructor; cbn; intuition discriminate.
+  - vm_compute; left; reflexivity.
+  - reflexivity.
+  - vm_compute; discriminate.
+  - vm_compute; reflexivity.
 Qed.
